@@ -139,12 +139,13 @@ func checkC18(c *h.Check) {
 			ops = append(ops, damage("hand-edited", edited))
 		}
 		// damage that differs from the current output only in white space / length
-		if cur != "" && !strings.Contains(cur, "\r") && strings.HasSuffix(cur, "}\n") && strings.HasPrefix(cur, "// Code generated by Wire") {
+		if cur != "" && !strings.Contains(cur, "\r") && strings.HasSuffix(cur, "}\n") && strings.HasPrefix(cur, "// Code generated by Wire") && !strings.Contains(cur, "FIXME") {
 			ops = append(ops,
 				damage("crlf-copy", strings.ReplaceAll(cur, "\n", "\r\n")),
 				damage("no-final-newline", strings.TrimSuffix(cur, "\n")),
 				damage("blank-tail", cur+"\n\n"),
 				damage("trailer-comment", cur+"// trailing comment\n"),
+				damage("comment-above-marker", "// FIXME: reviewed by hand\n\n"+cur),
 			)
 			// a truncated copy, as long as the generated build constraint survives the cut
 			if half := cur[:len(cur)/2]; strings.Contains(half, "//go:build !wireinject\n") {
